@@ -79,11 +79,20 @@ def make_classes(prog, d, state):
                     if state["r"].random() < 0.2:
                         # the component spends the time until its gate opens inside start_service_task(), waiting
                         # for a service that takes its time to report started(): it must stay cancellable there
-                        async def service(*, task_status):
+                        key = f"svc{i}_{int(phase)}_{si}"
+                        stop = anyio.Event()
+
+                        async def service(*, task_status, key=key, stop=stop):
                             await d.gate(i, on_cancel=lambda: d.obs("Cancelled", i))
                             task_status.started()
-                            await anyio.sleep_forever()
-                        await start_service_task(service, f"svc{i}_{int(phase)}_{si}")
+                            state.setdefault("svc_up", set()).add(key)
+                            await stop.wait()
+
+                        def stop_service(key=key, stop=stop):
+                            # the teardown action of a service that never came up must never be called
+                            state.setdefault("svc_stop", []).append(key)
+                            stop.set()
+                        await start_service_task(service, key, teardown_action=stop_service)
                     else:
                         await d.gate(i, on_cancel=lambda: d.obs("Cancelled", i))
                     for a in sg:
@@ -121,7 +130,15 @@ def make_classes(prog, d, state):
                         else:
                             def factory(v=v):
                                 return v
-                        if name == 0 and state["r"].random() < 0.5:
+                        if state["r"].random() < 0.3:
+                            # the types are taken from the factory's return annotation (a union for several)
+                            from typing import Union
+                            factory.__annotations__ = {"return": Union[tuple(ts)] if len(ts) > 1 else ts[0]}
+                            if name == 0 and state["r"].random() < 0.5:
+                                add_resource_factory(factory)
+                            else:
+                                add_resource_factory(factory, NAMES[name])
+                        elif name == 0 and state["r"].random() < 0.5:
                             add_resource_factory(factory, types=ts)
                         else:
                             add_resource_factory(factory, NAMES[name], types=ts)
@@ -293,7 +310,8 @@ async def run_case(case):
     return {"backend": case["backend"], "prog": prog, "timeout": case["timeout"], "choices": case["choices"],
             "mode": case.get("mode"),
             "steps": steps, "outcome": result.get("outcome"), "finished": finished, "late": late,
-            "still_waiting": still_waiting, "table": table, "teardown": [o[1] for o in td]}
+            "still_waiting": still_waiting, "table": table, "teardown": [o[1] for o in td],
+            "ghost_stops": [k for k in state.get("svc_stop", []) if k not in state.get("svc_up", set())]}
 
 
 async def copy_ctx_starter(ctx, starter):
